@@ -52,7 +52,32 @@ def coq_op(op):
     raise ValueError(op)
 
 
-END = {"ok": "Ok_", "err": "Err_", "panic": "Panic_", "never": "Pend"}
+END = {"ok": "Ok_", "err": "Err_", "err_io": "Err_", "err_cancelled": "Err_", "err_joinpanic": "Err_",
+       "panic": "Panic_", "never": "Pend"}
+ERR_KINDS = ["err", "err_io", "err_cancelled", "err_joinpanic"]
+
+
+def is_err(end):
+    return end.startswith("err")
+
+
+def epoch_of(cfg):
+    """The configured epoch in ns since UNIX_EPOCH."""
+    return cfg["epoch_ns"] if "epoch_ns" in cfg else cfg.get("epoch_ms", 1000000) * MS
+
+
+EPOCHS = [0, 1, 999, 1000, 999999, 1000001, 123456789, 5 * MS, 1700000000123 * MS,
+          1700000000 * 1000 * MS + 123456789, 1700000000 * 1000 * MS + 999999999,
+          4000000000 * 1000 * MS + 1, 946684800 * 1000 * MS + 500]
+
+
+def rand_epoch(rng):
+    r = rng.random()
+    if r < 0.6:
+        return rng.choice(EPOCHS)
+    if r < 0.8:
+        return rng.randrange(0, 4 * 10 ** 18)
+    return rng.randrange(0, 10 ** 6) * MS + rng.randrange(1, MS)
 
 
 def coq_script(p):
@@ -102,7 +127,7 @@ def to_model(case, obs):
             raise ValueError(name)
         probes.append(name)
     term = "exec_enc (init %d (wtick_of %d) %d %d) %s" % (
-        tick, tick, cfg["duration_ns"], cfg.get("epoch_ms", 1000000) * MS, coq_list(evs))
+        tick, tick, cfg["duration_ns"], epoch_of(cfg), coq_list(evs))
     return term, probes, problems
 
 
@@ -320,7 +345,7 @@ def base_cfg(rng, tick=None, odd=0.0, duration_ticks=None):
     if duration_ticks is None:
         duration_ticks = rng.choice([1, 2, 3, 5, 8, 13, 30])
     dur = duration_ticks * tick + rng.choice([0, 0, 1, tick // 2, tick - 1, -1])
-    return {"tick_ns": tick, "duration_ns": max(dur, 0), "epoch_ms": rng.choice([0, 1, 1000000, 1700000000123]),
+    return {"tick_ns": tick, "duration_ns": max(dur, 0), "epoch_ns": rand_epoch(rng),
             "random_order": rng.random() < 0.4, "seed": rng.randrange(1 << 30)}
 
 
@@ -352,6 +377,8 @@ def gen_ops(rng, tick, n, obs_p=0.5, fancy=True, whole=True):
 
 def gen_prog(rng, tick, end=None, whole=True, ticker=None, tasks=None, nops=None, panic_tasks=0.0):
     end = end or rng.choice(["ok", "ok", "ok", "err", "never", "panic"])
+    if end == "err":
+        end = rng.choice(ERR_KINDS)
     nops = rng.randrange(0, 6) if nops is None else nops
     p = {"main": gen_ops(rng, tick, nops, whole=whole), "end": end,
          "ticker": rng.random() < 0.6 if ticker is None else ticker, "tasks": []}
